@@ -38,7 +38,7 @@ theorem scanTok_nil_none : scanTok none [] = .fault .tokenEnd := by
   rw [scanTok.eq_def]
 theorem scanTok_cons (t : Option UInt8) (c : UInt8) (r : Bytes) :
     scanTok t (c :: r) = if c = 44 ∨ c = 32 ∨ c = 9 then .ok ([], c :: r) else if c = 59 then .reject
-      else if c = 0 then .reject else (scanTok t r).map fun x => (c :: x.1, x.2) := by
+      else if c = 0 then .reject else if c = 34 then .reject else (scanTok t r).map fun x => (c :: x.1, x.2) := by
   rw [scanTok.eq_def]
 
 theorem isWs_iff (c : UInt8) : isWs c = true ↔ c = 32 ∨ c = 9 := by simp [isWs]
@@ -128,7 +128,7 @@ theorem scanTok_token (t : UInt8) (ht : t ≠ 59) (v rest : Bytes) (hv : v.all t
     simp only [List.all_cons, Bool.and_eq_true] at hv
     have hc := hv.1
     simp only [tokByte, Bool.and_eq_true, bne_iff_ne, ne_eq, decide_eq_true_eq] at hc
-    obtain ⟨⟨⟨⟨h0, h32⟩, h9⟩, h44⟩, h59⟩ := hc
-    simp [scanTok_cons, h0, h32, h9, h44, h59, ih hv.2]
+    obtain ⟨⟨⟨⟨⟨h34, h0⟩, h32⟩, h9⟩, h44⟩, h59⟩ := hc
+    simp [scanTok_cons, h34, h0, h32, h9, h44, h59, ih hv.2]
 
 end Mhd.Auth
